@@ -25,6 +25,10 @@ structure DAttr where
   name : Nat
   form : Nat
   ref : Option Nat        -- for reference forms: section offset of the target DIE
+  num : Option Int := none        -- integer payload: fixed-size data as the unsigned bit pattern, sdata /
+                                  -- implicit_const signed, udata / sec_offset / addr / flag unsigned
+  blk : Option (List Nat) := none -- block forms: the bytes
+  str : Option (List Nat) := none -- string forms: the bytes
 deriving Repr, DecidableEq, Inhabited
 
 inductive Die where
